@@ -142,6 +142,12 @@ CORPUS = {
     "comprehension-target-reuses-outer-names": S("title = 'abc'\nxs = [title + 1 for title in range(3)]\ncopy = title\nmon.write(copy)\nmon.write(xs[2])\ndef label(tag):\n    ys = [tag * 2 for tag in range(2)]\n    return tag\n"
                                                  "mon.write(label('t'))\nvals = [1, 2, 3]\nzs = [vals for vals in range(2)]\nmon.write(len(vals) + zs[1])\n"),
     "chained-comparison-over-constants-at-module-level": S("ok = 0 < abs(-3) < 5\nnest = 1 < (1 < (2 < 3 < 9) < 3) < 3\nlow = 5 < max(1, 2) < 9\nmon.write(ok)\nmon.write(nest)\nmon.write(low)\ndef f():\n    return 0 < abs(-3) < 5\nmon.write(f())\n"),
+    "float-constants-needing-more-than-six-decimals": S("k = 0.0000025\nmon.write(k * 4000000)\nm = 4e-7\nmon.write(m * 10000000)\ndef tiny():\n    return 0.0000033 * 1000000\nmon.write(tiny())\nsleep(0.0000125 * 800000)\n"),
+    "helper-defined-above-the-device-it-uses": S("from Reduino.Actuators import Led\ndef blink_once():\n    led.on()\n    sleep(5)\n    led.off()\n    led.toggle()\nled = Led(13)\nwhile True:\n    blink_once()\n    mon.write(led.get_state())\n    sleep(5)\n"),
+    "helper-called-above-its-definition-with-a-float": S("def report():\n    mon.write(dim(0.25))\ndef dim(v):\n    return v * 2\nreport()\n"),
+    "modulo-index-with-negative-dividend": S("ring = [10, 20, 30, 40]\nhead = 0\nwhile True:\n    mon.write(ring[(head - 1) % 4])\n    mon.write(ring[(head - 3) % len(ring)])\n    head = (head + 1) % 4\n    sleep(5)\n"),
+    "helper-assignment-to-a-name-of-a-module-variable-is-local": S("label = 'ab'\nn = 3\ncount = 0\ndef f():\n    label = 'abcdefg'\n    n = 50\n    return len(label) + n\ndef bump():\n    global count\n    count = count + 1\n"
+                                                                   "mon.write(len(label))\nmon.write(f())\nmon.write(len(label) + n)\nmon.write(label)\nbump()\nbump()\nmon.write(count)\n"),
     "main-loop-header-with-trailing-comment": S("k = 0\nwhile True:  # main loop\n    k = k + 1\n    mon.write(k)\n    sleep(5)\n"),
     "sleep-in-branches": S("k = 0\nwhile True:\n    if k % 2 == 0:\n        sleep(100)\n    else:\n        sleep(250)\n    k = k + 1\n    mon.write(k)\n"),
 }
